@@ -130,12 +130,17 @@ def run_histories(ctx, hists, jobs=8):
             cur["uid"].append(int(f[1]))
         elif tag == "K":
             cur["K"][int(f[1])] = (int(f[2]), f[3])
-        elif tag in ("S", "R", "C", "M", "T", "P", "W", "G", "B"):
-            st = cur["steps"].setdefault(int(f[1]), dict(op=None, R=None, C=[], M=None, T={}, P={}, W={}, G=None, B={}))
+        elif tag in ("S", "R", "C", "M", "T", "P", "W", "G", "B", "R2", "G2"):
+            st = cur["steps"].setdefault(int(f[1]), dict(op=None, R=None, C=[], M=None, T={}, P={}, W={}, G=None, B={}, R2=None, G2=None))
             if tag == "S":
                 st["op"] = f[2:]
             elif tag == "R":
                 st["R"] = f[2:]
+            elif tag == "R2":
+                st["R2"] = f[2:]
+            elif tag == "G2":
+                n = int(f[2])
+                st["G2"] = (n, [tuple(int(x) for x in t.split(":")) for t in f[3:]])
             elif tag == "C":
                 st["C"].append(tuple(int(x) for x in f[2:7]))      # tid op flags hasarg len
             elif tag == "M":
@@ -302,9 +307,10 @@ VALID = ("ok", "big", "mid", "midnames") + SILENT
 
 
 def uses_silent(h):
-    """Histories the model cannot replay. None any more: the replay decides which installed filters answer their probe
-    by running the programs, and the kernel model filters seccomp(2) and prctl(2) themselves (KernelState.gate)."""
-    return False
+    """Histories the model does not replay: those with two OVERLAPPING loads (pload) - the replay is sequential; they are
+    judged by the direct rules. (Decision-free filters, repeated loads and filters that deny seccomp(2) / prctl(2) are
+    replayed: the replay runs the installed programs and the kernel model filters the loader's own calls.)"""
+    return any(s["op"] and s["op"][0] == "pload" for s in h["steps"].values())
 
 
 def load_steps(h):
@@ -317,6 +323,13 @@ def load_steps(h):
         pre = h["steps"][keys[n - 1]] if n > 0 else None
         if stp["op"] and stp["op"][0] in ("load", "supp") and stp["R"] is not None and pre is not None:
             yield i, stp, pre
+        if stp["op"] and stp["op"][0] == "pload" and stp["R"] is not None and stp["R2"] is not None and pre is not None:
+            # two overlapping loads: each is judged like a load, with the calls its own thread made
+            for k, (rk, gk) in enumerate((("R", "G"), ("R2", "G2"))):
+                op = ["load"] + stp["op"][1 + 5 * k:6 + 5 * k]
+                who = op[2]
+                tid = h["K"][int(who[1:])][0] if who.startswith("a") and int(who[1:]) in h["K"] else None
+                yield i, dict(stp, op=op, R=stp[rk], G=stp[gk], C=[c for c in stp["C"] if c[0] == tid], concurrent=True), pre
 
 
 def caller_tid(h, who, stp):
@@ -366,7 +379,9 @@ def direct_C09(h):
                 bad.append(dict(step=i, what="LoadFilter returned nil without any seccomp(2) call", expected="a filter in force", actual="no call observed"))
             else:
                 before = T0[ct][1] if ct in T0 else (B[ct][1] if ct in B else None)
-                if T1[ct][0] != 2 or (T1[ct][1] != before + 1 if before is not None else T1[ct][1] < 1):
+                if stp.get("concurrent") and before is not None and T1[ct][0] == 2 and T1[ct][1] > before:
+                    pass        # the overlapping load may have added its filter to this thread too (thread-sync)
+                elif T1[ct][0] != 2 or (T1[ct][1] != before + 1 if before is not None else T1[ct][1] < 1):
                     bad.append(dict(step=i, what="LoadFilter returned nil but no filter was added to the calling thread %d" % ct,
                                     expected="Seccomp: 2, Seccomp_filters: %s" % (before + 1 if before is not None else ">= 1"),
                                     actual="Seccomp: %d, Seccomp_filters: %d" % (T1[ct][0], T1[ct][1])))
@@ -375,6 +390,8 @@ def direct_C09(h):
                                     expected="filter %d active" % idx, actual=P1[ct]))
                 if flags & TSYNC:
                     for t in T1:
+                        if stp.get("concurrent"):
+                            break
                         if T1[t][0] != 2 or T1[t][1] != T1[ct][1]:
                             bad.append(dict(step=i, what="thread-sync load returned nil but thread %d does not carry the caller's filters" % t,
                                             expected=list(T1[ct]), actual=list(T1[t])))
@@ -430,7 +447,7 @@ def direct_C10(h):
                     if later["T"][t][0] != 2 or later["T"][t][1] < 1:
                         bad.append(dict(step=i, what="thread %d created after a successful thread-sync load has no filter" % t,
                                         expected="Seccomp: 2", actual=list(later["T"][t])))
-        if not (flags & TSYNC):
+        if not (flags & TSYNC) and not stp.get("concurrent"):
             for t in T1:
                 if t != ct and t in T0 and (T0[t][0], T0[t][1]) != (T1[t][0], T1[t][1]):
                     bad.append(dict(step=i, what="a load without thread-sync changed the filters of another thread (%d)" % t,
@@ -460,11 +477,13 @@ def direct_C11(h):
             if st_tid in T1 and T1[st_tid][2] != 1:
                 bad.append(dict(step=i, what="NoNewPrivs was requested but the thread that called seccomp(2) (%d) does not have the bit" % st_tid,
                                 expected="NoNewPrivs: 1", actual="NoNewPrivs: %d" % T1[st_tid][2]))
-        if nnp and valid and not priv and flags in (0, LOG) and not nil:
+        if nnp and valid and not priv and flags in (0, LOG, 4, 6) and not nil:
             bad.append(dict(step=i, what="an unprivileged load of a valid filter with NoNewPrivs requested failed", expected="nil",
                             actual=" ".join(stp["R"][:2]), migrated=stp["M"]))
         if not nnp:
             for t in T1:
+                if stp.get("concurrent") and t != ct:
+                    continue
                 if t in T0 and T0[t][2] != T1[t][2]:
                     if nil and flags & TSYNC and ct in T0 and T0[ct][2] == 1:
                         continue      # the kernel's thread-sync hands a bit the caller already had to the other threads
@@ -474,6 +493,8 @@ def direct_C11(h):
                 if nil:
                     bad.append(dict(step=i, what="an unprivileged load without NoNewPrivs returned nil", expected="error", actual="nil"))
                 for t in T1:
+                    if stp.get("concurrent") and t != ct:
+                        continue
                     if t in T0 and T1[t][1] != T0[t][1]:
                         bad.append(dict(step=i, what="an unprivileged load without NoNewPrivs installed a filter on thread %d" % t,
                                         expected=list(T0[t]), actual=list(T1[t])))
@@ -520,6 +541,13 @@ def gen_C09(rng, n):
         ";".join("load %d a0 0 0 mid" % i for i in range(8, 17)) + ";" + ";".join("load %d a0 0 0 ok" % i for i in range(17, 30)) + ";probe",
         "actor 0;actor 1;" + ";".join("load %d a0 1 1 midnames" % i for i in range(1, 6)) + ";" + ";".join("load %d a0 0 0 big" % i for i in range(6, 13)) + ";" +
         ";".join("load %d a1 0 1 mid" % i for i in range(13, 20)) + ";" + ";".join("load %d a0 0 %d ok" % (i, i % 4) for i in range(20, 34)) + ";probe",
+    ]
+    forced += [
+        # two loads from two threads that overlap between their prctl and seccomp steps: each installs ITS program
+        "actor 0;actor 1;pload 1 a0 1 0 ok 2 a1 1 0 ok;probe",
+        "actor 0;actor 1;load 1 a0 0 0 mid;pload 2 a0 0 0 mid 3 a1 1 0 mid;pload 4 a0 0 2 ok 5 a1 0 0 ok;probe",
+        "actor 0;actor 1;pload 1 a0 1 0 big 2 a1 1 0 ok;probe",
+        "actor 0;actor 1;pload 1 a0 0 0 ok 2 a1 1 2 mid;load 3 a0 0 0 ok;probe",
     ]
     if n > 100:
         forced.append("actor 0;actor 1;load 1 a0 1 0 big;load 2 a0 0 0 big;load 3 a0 0 0 big;load 4 a0 0 0 big;load 5 a0 0 0 big;load 6 a0 0 0 big;load 7 a0 0 0 big;load 8 a0 0 0 big;load 9 a0 0 0 big;load 10 a0 0 1 big;load 11 a0 0 3 big;load 12 a0 0 0 ok;probe")
@@ -579,6 +607,12 @@ def forced_C10():
         # the same filter again on the same thread, now with thread-sync: it must reach every thread
         "actor 0;bg 1 sleep;bg 2 pipe;load 1 a0 1 0 ok;load 1 a0 1 1 ok;wake;actor 3;probe",
         "actor 0;bg 1 sleep;load 1 a0 0 2 ok;load 1 a0 0 3 ok;load 1 a0 0 1 ok;wake;probe",
+        # two overlapping loads with different flag words: each word reaches the kernel as requested
+        "actor 0;actor 1;bg 2 sleep;pload 1 a0 1 1 ok 2 a1 1 0 ok;wake;probe",
+        "actor 0;actor 1;bg 2 sleep;bg 3 pipe;pload 1 a0 0 0 ok 2 a1 0 3 mid;wake;actor 4;probe",
+        # a process with a long list of supplementary groups (a long /proc/self/status)
+        "groups 120;actor 0;bg 1 sleep;bg 2 pipe;load 1 a0 1 1 ok;wake;actor 3;probe",
+        "groups 300;actor 0;bg 1 sleep;load 1 g 0 3 ok;wake;probe",
         # thread-sync of filters that change no decision
         "actor 0;bg 1 sleep;bg 2 spin;load 1 a0 1 1 nonames;load 2 a0 0 1 allowall;wake;actor 3;probe",
     ]
@@ -629,6 +663,12 @@ def gen_C11(rng, thorough):
         "actor 0;load 1 a0 0 0 nonames;load 2 a0 1 0 ok;probe",
         # prctl(2) answered with an error by an earlier filter (as root): the bit cannot be set, so the load must not succeed without it
         "actor 0;load 1 a0 0 0 denyprctl;load 2 a0 1 0 ok;load 3 a0 1 1 ok;load 4 g 1 0 ok;probe",
+        # flag bits the kernel knows and the package has no name for (SPEC_ALLOW = 4): the bit is set all the same
+        "actor 0;load 1 a0 1 4 ok;load 2 a0 1 6 ok;probe",
+        "drop;actor 0;load 1 a0 1 4 ok;load 2 g 1 5 ok;load 3 a0 1 7 ok;probe",
+        # overlapping loads, one asking for the bit and one not: the bit lands on the thread that asked
+        "actor 0;actor 1;pload 1 a0 1 0 ok 2 a1 0 0 ok;probe",
+        "drop;actor 0;actor 1;pload 1 a0 1 0 ok 2 a1 0 0 ok;probe",
         # a second load with the bit requested on a thread that already carries a filter loaded WITHOUT it (as root)
         "actor 0;load 1 a0 0 0 ok;load 2 a0 1 0 ok;probe",
         "actor 0;actor 1;load 1 a0 0 1 ok;load 2 a1 1 0 ok;load 3 a0 1 2 ok;probe",
@@ -815,9 +855,9 @@ def run_check(ctx, prop, prop_file, theorems, hist_texts, replay, rule, jobs=8):
 
 def check_C09(ctx, replay=None):
     rng = random.Random(ctx.seed * 1000003 + 9)
-    n = 36 if ctx.tier == "quick" else 240
+    n = 44 if ctx.tier == "quick" else 240
     run_check(ctx, "C09", "C09.v", C09_THEOREMS, gen_C09(rng, n), replay,
-              "load histories from the seeded generator plus sixteen forced ones (refused thread-sync by a divergent / an ahead thread, unknown flag bits 0x80 / 0x40 / illegal combinations, a 5000-instruction program, invalid policies, dropped privilege, listener flag; valid policies that change no decision - no names, all allow -; the same filter loaded again after a refusal; Supported() on a thread whose filter answers seccomp(2) with EPERM / ENOSYS; prctl(2) answered with EPERM; the filter chain filled to the kernel's ENOMEM limit with filters of about 4700, 600 and 20 internal instructions, so that the model's limit arithmetic (KernelState.internal_len) is compared with the kernel's to within twenty instructions), each executed by the real LoadFilter/Supported in a fresh child process (loads from locked OS threads and from ordinary goroutines) and replayed on the model inside Coq; every step compares result class, per-task Seccomp/Seccomp_filters and the set of filters answering the probe syscall; non-trivial = distinct history containing a kernel refusal (EINVAL/EACCES/thread-sync) or a successful thread-sync with several tasks")
+              "load histories from the seeded generator plus some twenty-five forced ones (refused thread-sync by a divergent / an ahead thread, unknown flag bits 0x80 / 0x40 / illegal combinations, a 5000-instruction program, invalid policies, dropped privilege, listener flag; valid policies that change no decision - no names, all allow -; the same filter loaded again after a refusal; Supported() on a thread whose filter answers seccomp(2) with EPERM / ENOSYS; prctl(2) answered with EPERM; two loads from two threads made to overlap between their prctl and seccomp steps - equal and different program lengths -; the filter chain filled to the kernel's ENOMEM limit with filters of about 4700, 600 and 20 internal instructions, so that the model's limit arithmetic (KernelState.internal_len) is compared with the kernel's to within twenty instructions), each executed by the real LoadFilter/Supported in a fresh child process (loads from locked OS threads and from ordinary goroutines) and replayed on the model inside Coq; every step compares result class, per-task Seccomp/Seccomp_filters and the set of filters answering the probe syscall; non-trivial = distinct history containing a kernel refusal (EINVAL/EACCES/thread-sync) or a successful thread-sync with several tasks")
 
 
 def check_C10(ctx, replay=None):
@@ -827,14 +867,14 @@ def check_C10(ctx, replay=None):
     else:
         hs = forced_C10() + gen_C10(rng, [1, 2, 3, 4, 8], 4) + gen_C10(rng, [16, 32], 2) + gen_C10(rng, [64], 2)
     run_check(ctx, "C10", "C10.v", C10_THEOREMS, hs, replay,
-              "nine forced histories (a load refused with EINVAL followed by loads whose flag words must arrive unchanged; thread-sync without privilege and without no_new_privs; seccomp(2) itself answered with ENOSYS / EPERM by an earlier filter; the same filter loaded again with thread-sync; thread-sync of filters that change no decision) and one process per history with N in {1,2,4,16,64} (thorough: more) extra OS threads that spin, sleep in nanosleep, block in read(2) on a pipe or keep creating threads while the load runs, flags in {0,tsync,log,tsync|log}, loads from a locked thread or an ordinary goroutine, optional earlier filter, random delay; after an atomic 'load returned' flag every thread issues the probe system calls, a thread created afterwards probes too; hook H2 records op/flags/len; compared with the model replay and checked directly; non-trivial = distinct history with at least two controlled threads",
+              "nine forced histories (a load refused with EINVAL followed by loads whose flag words must arrive unchanged; thread-sync without privilege and without no_new_privs; seccomp(2) itself answered with ENOSYS / EPERM by an earlier filter; the same filter loaded again with thread-sync; thread-sync of filters that change no decision; two overlapping loads with different flag words; a process with 120 / 300 supplementary groups) and one process per history with N in {1,2,4,16,64} (thorough: more) extra OS threads that spin, sleep in nanosleep, block in read(2) on a pipe or keep creating threads while the load runs, flags in {0,tsync,log,tsync|log}, loads from a locked thread or an ordinary goroutine, optional earlier filter, random delay; after an atomic 'load returned' flag every thread issues the probe system calls, a thread created afterwards probes too; hook H2 records op/flags/len; compared with the model replay and checked directly; non-trivial = distinct history with at least two controlled threads",
               jobs=6)
 
 
 def check_C11(ctx, replay=None):
     rng = random.Random(ctx.seed * 1000003 + 11)
     run_check(ctx, "C11", "C11.v", C11_THEOREMS, gen_C11(rng, ctx.tier != "quick"), replay,
-              "the full matrix {root, uid nobody} x {NoNewPrivs requested or not} x flags {0,1,2,3} x {locked OS thread, ordinary goroutine, ordinary goroutine with a forced migration attempt at the schedule point between prctl and seccomp (GOMAXPROCS(1), busy second goroutine, 30 ms sleeps)} plus random multi-load histories, plus forced ones: filters that change no decision, prctl(2) answered with EPERM by an earlier filter, a second load with the bit requested on a thread filtered without it, and a 4000-instruction policy loaded from an unpinned goroutine under scheduling pressure (GC loops, eight timer goroutines); per step: result, per-task NoNewPrivs/Seccomp, thread of the seccomp(2) call; non-trivial = distinct history run unprivileged or with a migration attempt")
+              "the full matrix {root, uid nobody} x {NoNewPrivs requested or not} x flags {0,1,2,3} x {locked OS thread, ordinary goroutine, ordinary goroutine with a forced migration attempt at the schedule point between prctl and seccomp (GOMAXPROCS(1), busy second goroutine, 30 ms sleeps)} plus random multi-load histories, plus forced ones: filters that change no decision, prctl(2) answered with EPERM by an earlier filter, a second load with the bit requested on a thread filtered without it, flag words with the kernel's SPEC_ALLOW bit, overlapping loads of which only one asks for the bit, and a 4000-instruction policy loaded from an unpinned goroutine under scheduling pressure (GC loops, eight timer goroutines); per step: result, per-task NoNewPrivs/Seccomp, thread of the seccomp(2) call; non-trivial = distinct history run unprivileged or with a migration attempt")
 
 
 CHECKS = {"C09": check_C09, "C10": check_C10, "C11": check_C11}
